@@ -258,8 +258,10 @@ def rule_5(ctx):
     anchor = ctx.mod('model').func('ModelCompiler.build_ranges')
     cells = {'A1': 1, 'A2': 2, 'C3': 40, 'B1': '=SUM(A1:A3)', 'B2': '=SUM($A$1:$A$3)', 'B3': '=SUM(Sheet1!A1:A3)', 'B4': '=Z9+1', 'B5': '=COUNTA(A1:A9)',
              'B6': '=SUM(A1:A3,$A1:A$3)+MAX(Sheet1!$A$1:A3)', 'B7': '=SUM(A1:C3)', 'B8': '=ISBLANK(Z9)', 'B9': '=SUM(Sheet1!$A$1:$C$3)+Y7',
-             'B10': '=A3+1', 'B11': '=SUM(B1:B3)'}
-    want = {'B1': 3, 'B2': 3, 'B3': 3, 'B4': 1, 'B5': 2, 'B6': 8, 'B7': 52, 'B8': True, 'B9': 52, 'B10': 1, 'B11': 9}
+             'B10': '=A3+1', 'B11': '=SUM(B1:B3)', 'D1': 0, 'D2': 5, 'D4': 0.0, 'D5': False, 'B12': '=COUNT(D1:D5)', 'B13': '=COUNTA(D1:D5)&"|"&MIN(D1:D5)',
+             'B14': '=AVERAGE(D1:D4)', 'B15': '=SUMPRODUCT(D1:D2,D1:D2)'}
+    want = {'B1': 3, 'B2': 3, 'B3': 3, 'B4': 1, 'B5': 2, 'B6': 8, 'B7': 52, 'B8': True, 'B9': 52, 'B10': 1, 'B11': 9, 'B12': 3, 'B13': ('Text', '4|0'), 'B14': 5 / 3,
+            'B15': 25}
     wb = W.Workbook(ctx, cells)
     for a, w in want.items():
         got = wb.value('Sheet1!' + a)
